@@ -658,13 +658,20 @@ class BasePlaceholderManager(MpfController):
         if hasattr(ast, "Constant"):
             self._eval_methods[ast.Constant] = self._eval_constant
 
+    def _eval_next(self, node, variables, subscribe, subscription):
+        """Evaluate a further child node. A failing evaluation keeps the subscriptions collected so far."""
+        try:
+            value, new_subscription = self._eval(node, variables, subscribe)
+        except TemplateEvalError as e:
+            raise TemplateEvalError(subscription + e.subscriptions)
+        return value, subscription + new_subscription
+
     def _eval_tuple(self, node, variables, subscribe):
         values = []
         subscription = []
         for element in node.elts:
-            value, element_subscription = self._eval(element, variables, subscribe)
+            value, subscription = self._eval_next(element, variables, subscribe, subscription)
             values.append(value)
-            subscription = subscription + element_subscription
         return tuple(values), subscription
 
     @staticmethod
@@ -695,20 +702,18 @@ class BasePlaceholderManager(MpfController):
     def _eval_if(self, node, variables, subscribe):
         value, subscription = self._eval(node.test, variables, subscribe)
         if value:
-            ret_value, ret_subscription = self._eval(node.body, variables, subscribe)
-            return ret_value, subscription + ret_subscription
+            return self._eval_next(node.body, variables, subscribe, subscription)
 
-        ret_value, ret_subscription = self._eval(node.orelse, variables, subscribe)
-        return ret_value, subscription + ret_subscription
+        return self._eval_next(node.orelse, variables, subscribe, subscription)
 
     def _eval_bin_op(self, node, variables, subscribe):
         left_value, left_subscription = self._eval(node.left, variables, subscribe)
-        right_value, right_subscription = self._eval(node.right, variables, subscribe)
+        right_value, subscription = self._eval_next(node.right, variables, subscribe, left_subscription)
         try:
             ret_value = OPERATORS[type(node.op)](left_value, right_value)
         except TypeError:
-            raise TemplateEvalError(left_subscription + right_subscription)
-        return ret_value, left_subscription + right_subscription
+            raise TemplateEvalError(subscription)
+        return ret_value, subscription
 
     def _eval_unary_op(self, node, variables, subscribe):
         value, subscription = self._eval(node.operand, variables, subscribe)
@@ -721,17 +726,16 @@ class BasePlaceholderManager(MpfController):
         if len(node.ops) > 1:
             raise AssertionError("Only single comparisons are supported.")
         left_value, left_subscription = self._eval(node.left, variables, subscribe)
-        right_value, right_subscription = self._eval(node.comparators[0], variables, subscribe)
+        right_value, subscription = self._eval_next(node.comparators[0], variables, subscribe, left_subscription)
         try:
-            return COMPARISONS[type(node.ops[0])](left_value, right_value), left_subscription + right_subscription
+            return COMPARISONS[type(node.ops[0])](left_value, right_value), subscription
         except TypeError:
-            raise TemplateEvalError(left_subscription + right_subscription)
+            raise TemplateEvalError(subscription)
 
     def _eval_bool_op(self, node, variables, subscribe):
         result, subscription = self._eval(node.values[0], variables, subscribe)
         for i in range(1, len(node.values)):
-            value, new_subscription = self._eval(node.values[i], variables, subscribe)
-            subscription += new_subscription
+            value, subscription = self._eval_next(node.values[i], variables, subscribe, subscription)
             try:
                 result = BOOL_OPERATORS[type(node.op)](result, value)
             except TypeError:
@@ -765,8 +769,7 @@ class BasePlaceholderManager(MpfController):
         if not isinstance(node.slice, ast.Slice):
             # python < 3.9 wraps the index in ast.Index
             index_node = node.slice.value if isinstance(node.slice, ast.Index) else node.slice
-            slice_value, slice_subscript = self._eval(index_node, variables, subscribe)
-            subscription = subscription + slice_subscript
+            slice_value, subscription = self._eval_next(index_node, variables, subscribe, subscription)
             if subscribe and isinstance(value, (BasePlaceholder, DevicePlaceholder, DeviceClassPlaceholder,
                                                 DevicesPlaceholder)):
                 # reading an item of a placeholder reads a variable: subscribe like for attribute access
